@@ -17,7 +17,7 @@ CLAIMS = {
              "satisfaction the choosers return reports locks of the candidate whose stack it carries. End to end on a bounded "
              "family (~60 scripts x every subset of their keys x preimage sets x locks met or not, both modes): the "
              "satisfier, evaluated from its typed syntax tree, returns only witnesses that use owned assets and make the "
-             "specification's script succeed in a reference execution under the reported locks. PsbtInputSatisfier::check_older / check_after are the spent input's own BIP-68 / BIP-65 conditions (grid of sequences, versions, lock times, other inputs final or not; rule shared with C14). The last steps of a direct satisfaction (Satisfaction::try_completing element by element in order, None on the first placeholder that cannot be completed, Miniscript::_satisfy reporting Unavailable / Impossible as CouldNotSatisfy) are a decision table (shared with C17). Descriptor::satisfy stores the returned witness and scriptSig in the TxIn, each in its own field, and leaves it unchanged on failure. Every witness element comes from Placeholder::satisfy_self: a key in its own serialization, the signature / preimage held for that very key / hash / leaf (decision table shared with C17).",
+             "specification's script succeed in a reference execution under the reported locks. PsbtInputSatisfier::check_older / check_after are the spent input's own BIP-68 / BIP-65 conditions (grid of sequences, versions, lock times, other inputs final or not; rule shared with C14). The last steps of a direct satisfaction (Satisfaction::try_completing element by element in order, None on the first placeholder that cannot be completed, Miniscript::_satisfy reporting Unavailable / Impossible as CouldNotSatisfy) are a decision table (shared with C17). Descriptor::satisfy stores the returned witness and scriptSig in the TxIn, each in its own field, and leaves it unchanged on failure. Every witness element comes from Placeholder::satisfy_self: a key in its own serialization, the signature / preimage held for that very key / hash / leaf (decision table shared with C17). Witness elements are written into pre-segwit scriptSigs with minimal pushes (OP_0 / OP_1..16 / OP_1NEGATE for the one-byte numbers), by util::witness_to_scriptsig and by Plan::satisfy alike (shared with C17).",
         note="Trusted: spec/satisfaction.py, spec/outputs.py; rustc THIR; evaluator semantics (fails closed). Signature "
              "validity, script execution and witness optimisation are not decided.",
         tech=STATIC + "symbolic per-variant template extraction from THIR compared with specification tables",
@@ -29,7 +29,7 @@ CLAIMS = {
              "exact tables; asset-lookup forwarding completeness over all Satisfier impls; malleable entry points reach "
              "malleable internals (call-site rule with reasoned exceptions). End to end on a bounded family (as C01): whenever a "
              "canonical satisfaction exists with the owned assets, the malleable satisfier returns one, and so does the "
-             "non-malleable one for scripts typed non-malleable. The planner's matching of keys against the caller's Assets (is_key_direct_child_of) is an exhaustive table on short paths (rule shared with C17). The map Satisfier impls return the entry for exactly the asked key / hash / leaf. The lock-time types used as satisfiers (Sequence, RelLockTime, relative::LockTime, absolute::LockTime) answer by BIP-68 / BIP-65 implication of the requested lock by the held value (grid).",
+             "non-malleable one for scripts typed non-malleable. The planner's matching of keys against the caller's Assets (is_key_direct_child_of) is an exhaustive table on short paths (rule shared with C17). The map Satisfier impls return the entry for exactly the asked key / hash / leaf. The lock-time types used as satisfiers (Sequence, RelLockTime, relative::LockTime, absolute::LockTime) answer by BIP-68 / BIP-65 implication of the requested lock by the held value (grid). PsbtInputSatisfier::check_older / check_after find every lock the transaction meets (BIP-68 / BIP-65 tables shared with C14).",
         note="Trusted: spec/satisfaction.py; rustc THIR. The witness search itself is not decided.",
         tech=STATIC + "cross-table contradiction rule, finite decision tables from THIR, who-calls-whom mode rule",
         engine="symx+tablex"),
@@ -39,7 +39,7 @@ CLAIMS = {
              "exact table of `minimum`, time-lock availability rule and provenance of root_has_sig, selector binding per "
              "mode for every fragment, threshold selection on n=3 as properties of the result. End to end on a bounded family "
              "(as C01): no single or double third-party edit of a witness returned in non-malleable mode is accepted by "
-             "the reference execution under MINIMALIF + NULLFAIL. Non-malleable entry points of every output type never route into a malleable internal (who-calls-whom rule over all mode-specific call sites, shared with C02).",
+             "the reference execution under MINIMALIF + NULLFAIL. Non-malleable entry points of every output type never route into a malleable internal (who-calls-whom rule over all mode-specific call sites, shared with C02). The lock merge of one spending path (RelLockTime::max, AbsLockTime::max, Satisfaction::concatenate_rev) keeps the later of two locks of one unit - equal ones included - and is IMPOSSIBLE exactly for differing units.",
         note="Trusted: specification's non-malleable algorithm is sufficient; malleability typing decided by C05.",
         tech=STATIC + "finite decision tables from THIR + symbolic selector binding",
         engine="tablex"),
@@ -100,7 +100,7 @@ CLAIMS = {
              "mixed-time-lock fold truth table. Decides structurally: polarity (tightening never admits more) and "
              "switch<->defect<->error pairing of every validation switch / limit on decision trees extracted symbolically "
              "from validate / validate_non_top_level for each of the 30 fragment kinds; every parameter is enforced; "
-             "per-context fragment and key tables; entry-point coverage and constructor discipline on MIR. Numbers are in range on every way in: lock times exactly 1 <= n < 2^31 and thresholds 1 <= k <= n <= key limit, through the constructors, the text parser and the script decoder (boundary tables by evaluation). Every typed leaf constructor of Miniscript (pk_k ... sortedmulti_a, TRUE / FALSE: what parser, decoder and compiler use) attaches the type and figures that from_ast computes for the same node, in every context (shared rule). script_num_size and Ctx::pk_len, the byte counts the size switches are applied to, are exact tables (shared with C04). The key-kind predicates (is_uncompressed / is_x_only_key / num_der_paths) of every MiniscriptKey impl of the crate are a checked table; an impl missing from it fails. ScriptContext::other_top_level_checks for every context x fragment kind (bare outputs: p2pk, p2pkh, multi / sortedmulti up to 3 keys only). ExtData's time-lock summary joins, per fragment kind, exactly the children that share a spending path (all combinations of child summaries).",
+             "per-context fragment and key tables; entry-point coverage and constructor discipline on MIR. Numbers are in range on every way in: lock times exactly 1 <= n < 2^31 and thresholds 1 <= k <= n <= key limit, through the constructors, the text parser and the script decoder (boundary tables by evaluation). Every typed leaf constructor of Miniscript (pk_k ... sortedmulti_a, TRUE / FALSE: what parser, decoder and compiler use) attaches the type and figures that from_ast computes for the same node, in every context (shared rule). script_num_size and Ctx::pk_len, the byte counts the size switches are applied to, are exact tables (shared with C04). The key-kind predicates (is_uncompressed / is_x_only_key / num_der_paths) of every MiniscriptKey impl of the crate are a checked table; an impl missing from it fails. ScriptContext::other_top_level_checks for every context x fragment kind (bare outputs: p2pk, p2pkh, multi / sortedmulti up to 3 keys only). ExtData's time-lock summary joins, per fragment kind, exactly the children that share a spending path (all combinations of child summaries). The tree walk the per-node switches and the duplicate-key test ride on (iter / iter_pk / get_nth_child) visits every child of every fragment kind (shared with C20).",
         note="Trusted: spec/limits.py; rustc THIR/MIR and constant evaluation. Defect predicates are assumed to compute "
              "what their names say; typed infallible combinators are outside the claim.",
         tech=STATIC + "symbolic decision-tree extraction with monotonicity (polarity) check, exact finite tables, MIR must-pass-through and who-may-construct",
@@ -185,7 +185,7 @@ CLAIMS["C17"] = dict(
          "Placeholder::satisfy_self turns every placeholder into exactly the element it stands for (decision table over "
          "placeholder kinds x key forms x satisfier holdings); Assets as asset provider (key source x fingerprint x "
          "capability x leaf availability x signature size; preimage sets; lock maxima; append) and a Satisfier as asset "
-         "provider answer exactly from what they hold. Satisfaction::try_completing / Miniscript::_satisfy / Plan::satisfaction_weight as decision tables.",
+         "provider answer exactly from what they hold. Satisfaction::try_completing / Miniscript::_satisfy / Plan::satisfaction_weight as decision tables. Plan::satisfy writes pre-segwit scriptSigs exactly as the direct satisfier does (minimal pushes); locks are merged part by part as in C03.",
     note="Trusted: spec/outputs.py, spec/satisfaction.py, spec/msexec.py; rustc THIR. Byte equality of completed plans "
          "is not decided.",
     tech=STATIC + "call-structure rules, finite decision tables and symbolic field-provenance extraction from THIR",
@@ -293,7 +293,7 @@ CLAIMS["C11"] = dict(
          "chains) equals the fragment's depth on ~1600 typed fragments. Structural: the parser's depth "
          "pre-check (402 accepted, 403 refused) dominates tree construction; every recursive cycle of the MIR call "
          "graph reachable from an entry point consists of audited functions whose depth that pre-check (or "
-         "from_ast's tree-height check) bounds. The malformed-text family includes characters at the edges of the accepted range (0x1f, DEL, 0x80, NUL, TAB) with and without checksum-shaped suffixes. Values whose invariant a later unreachable! / expect relies on (DefiniteDescriptorKey, DerivPaths) are built only inside their checking constructor (who-constructs rule at function granularity).",
+         "from_ast's tree-height check) bounds. The malformed-text family includes characters at the edges of the accepted range (0x1f, DEL, 0x80, NUL, TAB) with and without checksum-shaped suffixes. Values whose invariant a later unreachable! / expect relies on (DefiniteDescriptorKey, DerivPaths) are built only inside their checking constructor (who-constructs rule at function granularity). The evaluator treats an allocation request beyond 2^20 elements (Vec::with_capacity) as a crash; the decoder's mutation family carries large well-formed numbers.",
     note="Trusted: the evaluator's panic semantics and std models; rust-bitcoin models. Descriptor key-expression "
          "parsing (xpub / origin / derivation paths), the planner and allocation sizes are not searched; absence of a "
          "report on the families is not absence of panics.",
@@ -311,7 +311,7 @@ CLAIMS["C06"] = dict(
          "substitutions of the canonical witnesses, and the label predictions are checked: B / V / K / W stack shapes, "
          "z / o / n consumption, u, d, s, f, and that canonical (dis)satisfactions leave non-zero / zero; Type::cast_x "
          "equals type_check of the wrapper on all (cast, child type) pairs (rule shared with C08); the contexts admit "
-         "exactly the fragments / key kinds that can execute under their script rules (rule shared with C12). The leaf family includes the boundary lock values (0, 1, 2^31 - 1, 2^31, unit flags). The reference executor enforces the 4-byte limit of numeric operands; the largest lock values appear under the combinators.",
+         "exactly the fragments / key kinds that can execute under their script rules (rule shared with C12). The leaf family includes the boundary lock values (0, 1, 2^31 - 1, 2^31, unit flags). The reference executor enforces the 4-byte limit of numeric operands; the largest lock values appear under the combinators. The typed leaf constructors attach the labels type_check gives (shared with C05).",
     note="Trusted: spec/typesem.py (label meanings incl. the MINIMALIF assumption), spec/msexec.py, spec/script.py; C05 "
          "(rules == specification) and C04 (encoder == templates) connect the labels and scripts to the library; rustc "
          "THIR; evaluator. `e` and `m` (third-party malleation) and deeper fragments are not decided.",
@@ -340,7 +340,7 @@ CLAIMS["C08"] = dict(
          "the policies compared by hand; likewise compile_tr (internal-key extraction, per-leaf compilation, Huffman tree), "
          "compile_tr_native, compile_tr_private_experimental and compile_to_descriptor (bare / sh / wsh / sh-wsh / tr) "
          "evaluated on ~12 policies (thorough ~17): the descriptor is of the requested kind, lifts to the policy's truth "
-         "table (the unspendable key never available), every leaf passes validate(&Tap::SANE), the text re-parses. Every typed leaf constructor of Miniscript (pk_k ... sortedmulti_a, TRUE / FALSE: what parser, decoder and compiler use) attaches the type and figures that from_ast computes for the same node, in every context (shared rule). The end-to-end compiler rule also runs a family in the Legacy and Bare contexts (known finding: a threshold over a time lock compiles to an or_i-bearing script that the context's own SANE parameters refuse) and includes policies with TRIVIAL / UNSATISFIABLE.",
+         "table (the unspendable key never available), every leaf passes validate(&Tap::SANE), the text re-parses. Every typed leaf constructor of Miniscript (pk_k ... sortedmulti_a, TRUE / FALSE: what parser, decoder and compiler use) attaches the type and figures that from_ast computes for the same node, in every context (shared rule). The end-to-end compiler rule also runs a family in the Legacy and Bare contexts (known finding: a threshold over a time lock compiles to an or_i-bearing script that the context's own SANE parameters refuse) and includes policies with TRIVIAL / UNSATISFIABLE. ScriptContext::check_local_validity, the compiler's candidate filter, applies all four of the context's checks in every context.",
     note="Trusted: spec/semantics.py + spec/policy_sem.py; C05/C06 (types are sound), C07 (lift), C09 (limits used by "
          "check_local_validity); rustc THIR; evaluator. Cost optimality and ExtData attached by casts (C09 decides the "
          "rules) are not decided; the end-to-end rules are bounded families.",
